@@ -53,6 +53,14 @@ func pkgPathOf(fn *ssa.Function) string {
 }
 
 func (e *Exec) intrinsic(th *Thread, fn *ssa.Function, args []Value) (Value, bool) {
+	if fn.Synthetic == "package initializer" {
+		if fn == e.initNow {
+			e.initNow = nil
+			return nil, false
+		}
+		e.ensureInit(fn.Pkg)
+		return nil, true
+	}
 	name := fnName(fn)
 	if h, ok := intrinsics[name]; ok {
 		e.stubs[name]++
@@ -826,6 +834,85 @@ func init() {
 		return v
 	}
 	I["math/rand.Int63n"] = I["math/rand.Intn"]
+
+	// ---- math/bits: table lookups replaced by ite chains over the bits ----
+	bitLen := func(w int) intrinsicFn {
+		return func(e *Exec, th *Thread, fn *ssa.Function, a []Value) Value {
+			c := e.ctx
+			x := a[0].(*Term)
+			r := c.BVConst(64, 0)
+			for i := 0; i < w; i++ {
+				bit := c.Eq(c.Extract(i, i, x), c.BVConst(1, 1))
+				r = c.Ite(bit, c.BVConst(64, int64(i+1)), r)
+			}
+			return r
+		}
+	}
+	I["math/bits.Len8"] = bitLen(8)
+	I["math/bits.Len16"] = bitLen(16)
+	I["math/bits.Len32"] = bitLen(32)
+	I["math/bits.Len64"] = bitLen(64)
+	I["math/bits.Len"] = bitLen(64)
+	onesCount := func(w int) intrinsicFn {
+		return func(e *Exec, th *Thread, fn *ssa.Function, a []Value) Value {
+			c := e.ctx
+			x := a[0].(*Term)
+			r := c.BVConst(64, 0)
+			for i := 0; i < w; i++ {
+				r = c.Add(r, c.ZExt(c.Extract(i, i, x), 64))
+			}
+			return r
+		}
+	}
+	I["math/bits.OnesCount8"] = onesCount(8)
+	I["math/bits.OnesCount16"] = onesCount(16)
+	I["math/bits.OnesCount32"] = onesCount(32)
+	I["math/bits.OnesCount64"] = onesCount(64)
+	I["math/bits.OnesCount"] = onesCount(64)
+	trailing := func(w int) intrinsicFn {
+		return func(e *Exec, th *Thread, fn *ssa.Function, a []Value) Value {
+			c := e.ctx
+			x := a[0].(*Term)
+			r := c.BVConst(64, int64(w))
+			for i := w - 1; i >= 0; i-- {
+				bit := c.Eq(c.Extract(i, i, x), c.BVConst(1, 1))
+				r = c.Ite(bit, c.BVConst(64, int64(i)), r)
+			}
+			return r
+		}
+	}
+	I["math/bits.TrailingZeros8"] = trailing(8)
+	I["math/bits.TrailingZeros32"] = trailing(32)
+	I["math/bits.TrailingZeros64"] = trailing(64)
+	I["math/bits.TrailingZeros"] = trailing(64)
+	leading := func(w int) intrinsicFn {
+		return func(e *Exec, th *Thread, fn *ssa.Function, a []Value) Value {
+			l := bitLen(w)(e, th, fn, a).(*Term)
+			return e.ctx.Sub(e.ctx.BVConst(64, int64(w)), l)
+		}
+	}
+	I["math/bits.LeadingZeros8"] = leading(8)
+	I["math/bits.LeadingZeros32"] = leading(32)
+	I["math/bits.LeadingZeros64"] = leading(64)
+	I["math/bits.LeadingZeros"] = leading(64)
+
+	// ---- regexp: not encodable; compiled expressions are opaque handles that
+	// remember their source (harness redirects may give them meaning) ----
+	I["regexp.MustCompile"] = func(e *Exec, th *Thread, fn *ssa.Function, a []Value) Value {
+		var cell Value = e.zero(fn.Signature.Results().At(0).Type().(*types.Pointer).Elem())
+		p := &cell
+		e.regexps[p] = e.goString(a[0], "regexp source")
+		return p
+	}
+	I["regexp.Compile"] = func(e *Exec, th *Thread, fn *ssa.Function, a []Value) Value {
+		var cell Value = e.zero(fn.Signature.Results().At(0).Type().(*types.Pointer).Elem())
+		p := &cell
+		e.regexps[p] = e.goString(a[0], "regexp source")
+		return TupleV{p, IfaceV{}}
+	}
+	I["(*regexp.Regexp).String"] = func(e *Exec, th *Thread, fn *ssa.Function, a []Value) Value {
+		return e.regexps[a[0].(*Value)]
+	}
 
 	registerSync()
 	registerTime()
